@@ -432,6 +432,62 @@ func runC25(rc *RunCtx, i int) {
 		}
 		rc.Res.Count("shared_operand_groups", 1)
 	}
+	// the same sharing hazard for regex and prefilter constructors and for builder chains after
+	// MatchRegex: a tree, once built, must keep its JSON form when further trees are derived from
+	// one of its operands (evaluation of these kinds is covered above; here only stability)
+	for k := 0; k < 3; k++ {
+		and := sr.Bool()
+		rbase := facts.RegexLeaf(sr)
+		pbase := facts.PrefilterLeaf(sr)
+		for g := sr.Range(1, 4); g > 0; g-- {
+			if and {
+				rbase = bs.RegexAnd(rbase, facts.RegexLeaf(sr))
+				pbase = bs.PrefilterAnd(pbase, facts.PrefilterLeaf(sr))
+			} else {
+				rbase = bs.RegexOr(rbase, facts.RegexLeaf(sr))
+				pbase = bs.PrefilterOr(pbase, facts.PrefilterLeaf(sr))
+			}
+		}
+		type snap struct {
+			what string
+			get  func() string
+			was  string
+		}
+		var snaps []*snap
+		jsonOf := func(v any) string { b, _ := json.Marshal(v); return string(b) }
+		for u := sr.Range(2, 4); u > 0; u-- {
+			var rx bs.RegexExpression
+			var px bs.PrefilterExpression
+			if and {
+				rx, px = bs.RegexAnd(rbase, facts.RegexLeaf(sr)), bs.PrefilterAnd(pbase, facts.PrefilterLeaf(sr))
+			} else {
+				rx, px = bs.RegexOr(rbase, facts.RegexLeaf(sr)), bs.PrefilterOr(pbase, facts.PrefilterLeaf(sr))
+			}
+			leaf := facts.RegexLeaf(sr)
+			var q *bs.Query
+			if leaf.Condition != nil {
+				q = bs.NewQuery().MatchRegex(rbase).FieldRegex(leaf.Condition.Field, leaf.Condition.Pattern).MatchPrefilter(px).Build()
+			} else {
+				q = bs.NewQuery().MatchRegex(rx).MatchPrefilter(px).Build()
+			}
+			rxc, pxc, qc := rx, px, q
+			for _, sn := range []*snap{
+				{what: "regex tree", get: func() string { return jsonOf(rxc) }},
+				{what: "prefilter tree", get: func() string { return jsonOf(pxc) }},
+				{what: "query built with MatchRegex/FieldRegex/MatchPrefilter", get: func() string { return queryJSON(qc) }},
+			} {
+				sn.was = sn.get()
+				snaps = append(snaps, sn)
+			}
+		}
+		for _, sn := range snaps {
+			if now := sn.get(); now != sn.was {
+				rc.Violate(i, "tree-changed-after-construction", "", "a "+sn.what+" changed after another expression sharing one of its operands was built", map[string]any{"when_built": sn.was, "now": now})
+				break
+			}
+		}
+		rc.Res.Count("shared_operand_groups_regex_prefilter", 1)
+	}
 	// whole-Query round trip
 	qr := r.Split("q")
 	for k := 0; k < 6; k++ {
